@@ -48,6 +48,19 @@ type Facts struct {
 	Css       map[string]CssFact           `json:"css"`
 	SM        map[string]map[string]bool   `json:"sm"`
 	DefH      map[string]string            `json:"defh"`
+	// oracle facts: how a browser reads a value (independent of net/url and douceur)
+	UrlW map[string]UrlWFact    `json:"urlw"`
+	CssW map[string][]DeclWFact `json:"cssw"`
+}
+
+type UrlWFact struct {
+	Kind   string `json:"kind"`
+	Scheme string `json:"scheme"`
+}
+
+type DeclWFact struct {
+	LP string `json:"lp"`
+	DV string `json:"dv"`
 }
 
 func NewFacts() *Facts {
@@ -57,11 +70,14 @@ func NewFacts() *Facts {
 		Custom: map[string]map[string]bool{}, SchemePat: map[string]map[string]bool{},
 		Rewrite: map[string]map[string]string{}, Fields: map[string][]string{}, LFields: map[string][]string{},
 		Css: map[string]CssFact{}, SM: map[string]map[string]bool{}, DefH: map[string]string{},
+		UrlW: map[string]UrlWFact{}, CssW: map[string][]DeclWFact{},
 	}
 }
 
+// set2 records m[id][string]: ids (regexp sources, function names) are used verbatim, exactly as they
+// appear in policy snapshots; the strings they are applied to are encoded like everything in a trace.
 func set2(m map[string]map[string]bool, a, b string, v bool) {
-	a, b = Enc(a), Enc(b)
+	b = Enc(b)
 	if m[a] == nil {
 		m[a] = map[string]bool{}
 	}
@@ -215,15 +231,80 @@ func (f *Facts) AddTag(p *AP, n string, attrs []Attr) {
 		case "href", "cite", "src":
 			f.addURL(p, a.V)
 		case "rel":
-			f.LFields[Enc(a.V)] = EncStrs(strings.Fields(strings.ToLower(a.V)))
+			f.addRelClosure(a.V)
 		case "sandbox":
-			f.Fields[Enc(a.V)] = EncStrs(strings.Fields(a.V))
+			f.addFields(a.V)
+			keep, seen := []string{}, map[string]bool{}
+			for _, t := range strings.Fields(a.V) {
+				if inSet(p.Sandbox, t) && !seen[t] {
+					seen[t] = true
+					keep = append(keep, t)
+				}
+			}
+			f.addFields(strings.Join(keep, " "))
+			f.addFields("")
 		case "style":
 			if p.hasAnyStyleRules() {
 				f.addCSS(p, a.V)
 			}
 		}
 	}
+	f.addRelClosure("")
+	f.addFields("")
+}
+
+func (f *Facts) addFields(v string) { f.Fields[Enc(v)] = EncStrs(strings.Fields(v)) }
+
+func (f *Facts) addLFields(v string) {
+	f.LFields[Enc(v)] = EncStrs(strings.Fields(strings.ToLower(v)))
+}
+
+// addRelClosure: the token lists of a rel value and of every value link hardening can make of it.
+func (f *Facts) addRelClosure(v string) {
+	base := []string{v, v + " nofollow", v + " noreferrer", v + " nofollow noreferrer"}
+	if v == "" {
+		base = append(base, "nofollow", "noreferrer", "nofollow noreferrer", "noopener")
+	}
+	for _, b := range base {
+		f.addLFields(b)
+		f.addLFields(b + " noopener")
+	}
+}
+
+// AddAfter adds the oracle facts for attributes the real code emitted.
+func (f *Facts) AddAfter(p *AP, n string, after []Attr) {
+	for _, a := range after {
+		switch a.K {
+		case "rel":
+			f.addLFields(a.V)
+		case "sandbox":
+			f.addFields(a.V)
+		case "href", "cite", "src":
+			f.addURLW(a.V)
+			f.Host[Enc(a.V)] = hostOf(a.V)
+		case "style":
+			if p.hasAnyStyleRules() {
+				f.addCSSW(p, a.V)
+			}
+		}
+	}
+}
+
+func (f *Facts) addURLW(v string) {
+	k, s := URLClassW(v)
+	f.UrlW[Enc(v)] = UrlWFact{k, Enc(s)}
+}
+
+func (f *Facts) addCSSW(p *AP, v string) {
+	out := []DeclWFact{}
+	for _, d := range CSSSplitW(v) {
+		lp, dv := StripOneVendor(d.Prop), CSSDecode(strings.ToLower(d.Value))
+		out = append(out, DeclWFact{Enc(lp), Enc(dv)})
+		for _, id := range p.allStyleIDs(lp) {
+			set2(f.SM, id, dv, StyleMatcher(id)(dv))
+		}
+	}
+	f.CssW[Enc(v)] = out
 }
 
 func (f *Facts) addURL(p *AP, v string) {
@@ -232,10 +313,12 @@ func (f *Facts) addURL(p *AP, v string) {
 	enc.Scheme, enc.Norm = Enc(uf.Scheme), Enc(uf.Norm)
 	f.Url[Enc(v)] = enc
 	f.Host[Enc(v)] = hostOf(v)
+	f.addURLW(v)
 	if u == nil {
 		return
 	}
 	f.Host[Enc(uf.Norm)] = hostOf(uf.Norm)
+	f.addURLW(uf.Norm)
 	for _, fid := range p.Schemes[uf.Scheme] {
 		pol, ok := URLPols[fid]
 		if !ok {
@@ -255,12 +338,13 @@ func (f *Facts) addURL(p *AP, v string) {
 		ru, err := url.Parse(uf.Norm)
 		if err == nil {
 			Rewriters[p.Rewriter](ru)
-			fr := Enc(p.Rewriter)
+			fr := p.Rewriter
 			if f.Rewrite[fr] == nil {
 				f.Rewrite[fr] = map[string]string{}
 			}
 			f.Rewrite[fr][Enc(uf.Norm)] = Enc(ru.String())
 			f.Host[Enc(ru.String())] = hostOf(ru.String())
+			f.addURLW(ru.String())
 		}
 	}
 }
@@ -275,6 +359,18 @@ func (f *Facts) addCSS(p *AP, v string) {
 		}
 	}
 	f.Css[Enc(v)] = enc
+	// every style value the filter can produce from v: the joins of the subsequences of its declarations
+	if n := len(cf.Decls); n <= 6 {
+		for mask := 0; mask < 1<<n; mask++ {
+			parts := []string{}
+			for i, d := range cf.Decls {
+				if mask&(1<<i) != 0 {
+					parts = append(parts, d.P+": "+d.V)
+				}
+			}
+			f.addCSSW(p, strings.Join(parts, "; "))
+		}
+	}
 }
 
 // AddRecipe adds the facts builder calls consult (lower-casing, default handlers).
